@@ -223,6 +223,12 @@ func (m *failFirstManager) ChangeScale(e int32) error {
 
 // runReplica runs one cycle for one or more replicas; returns per replica observation
 func coordRunReplicas(opts coOpts, reps []*coCase, failList []bool) (obs []coObs) {
+	return coordRunReplicasW(opts, reps, failList, false)
+}
+
+// warm: run one cycle of the same Coordinator on the same scripted replies first and observe the SECOND cycle (the
+// coordinator is meant to keep nothing between cycles except its published view)
+func coordRunReplicasW(opts coOpts, reps []*coCase, failList []bool, warm bool) (obs []coObs) {
 	now := time.Now()
 	var managers []shard.Manager
 	type repRec struct {
@@ -272,6 +278,22 @@ func coordRunReplicas(opts coOpts, reps []*coCase, failList []bool) (obs []coObs
 		func() map[uint64]*discovery.SDTargets { return active },
 		prometheus.NewRegistry(), quietLog)
 	panicked := ""
+	if warm {
+		func() {
+			defer func() { _ = recover() }()
+			_ = co.VerifRunOnce()
+		}()
+		for _, r := range rr {
+			r.m.mu.Lock()
+			r.m.scales, r.m.calls = nil, 0
+			r.m.mu.Unlock()
+			for _, rec := range r.recs {
+				rec.mu.Lock()
+				rec.log, rec.post, rec.rtCnt = nil, nil, 0
+				rec.mu.Unlock()
+			}
+		}
+	}
 	func() {
 		defer func() {
 			if r := recover(); r != nil {
@@ -414,7 +436,150 @@ func coStatsOf(c *coCase, obs coObs) map[string]int {
 // ---------------------------------------------------------------- generator
 func pick64(r *rand.Rand, vs ...int64) int64 { return vs[r.Intn(len(vs))] }
 
+// coordScenario builds cases AROUND the branches the purely random generator rarely reaches: several moves onto one
+// destination in one cycle (relief and scale-down), scale-down with shards that are not in sync at lower ordinals,
+// tails of unready shards behind expired idle ones, first assignment next to out-of-sync shards holding copies.
+func coordScenario(r *rand.Rand, thorough bool) *coCase {
+	c := &coCase{Scale1OK: true}
+	L := pick64(r, 1000, 1000, 400, 100)
+	H := pick64(r, 0, 0, L, L/2)
+	n := 2 + r.Intn(3)
+	if thorough {
+		n = 2 + r.Intn(4)
+	}
+	c.Opts = coOpts{MaxHead: H, MaxProc: L, MaxShard: int32(n + r.Intn(3)), MinShard: int32(r.Intn(2)), MaxIdle: pick64(r, 3600, 3600, 60, 0)}
+	kind := r.Intn(5)
+	hash := uint64(100)
+	mkT := func(series, total int64, times uint64) coStat {
+		hash++
+		c.Active = append(c.Active, [2]uint64{hash, uint64(r.Intn(2))})
+		c.Explore = append(c.Explore, coStat{Hash: hash, Health: 0, Series: series, Total: total})
+		return coStat{Hash: hash, Series: series, Total: total, Times: times}
+	}
+	lim := L
+	if H != 0 {
+		lim = H
+	}
+	for k := 0; k < n; k++ {
+		c.Shards = append(c.Shards, coShard{Ready: true, PushOK: true, PostOK: r.Intn(10) != 0, Status: &[]coStat{}, RT1: &coRuntime{HashOK: true}})
+	}
+	setLoad := func(k int) {
+		var hs, ps int64
+		for _, st := range *c.Shards[k].Status {
+			hs += st.Series
+			ps += st.Total
+		}
+		c.Shards[k].RT1.Head, c.Shards[k].RT1.Proc = hs, ps
+	}
+	old := func() uint64 { return uint64(pick64(r, 3, 4, 9, 3, 5)) }
+	small := func() (int64, int64) { // kept series small, total sometimes much larger (the process limit binds)
+		sr := pick64(r, 1, lim/20+1, lim/10, lim/8)
+		return sr, sr + pick64(r, 0, 0, L/5, L/4, L/3)
+	}
+	switch kind {
+	case 0, 1: // scale-down with moves: every shard holds 1-2 old, healthy, normal targets; the tail can be emptied downwards
+		c.Opts.MaxIdle = pick64(r, 3600, 60)
+		for k := 0; k < n; k++ {
+			cnt := 1 + r.Intn(2)
+			if k == n-1 {
+				cnt = 1 + r.Intn(3)
+			}
+			for j := 0; j < cnt; j++ {
+				sr, tt := small()
+				*c.Shards[k].Status = append(*c.Shards[k].Status, mkT(sr, tt, old()))
+			}
+			setLoad(k)
+		}
+		if r.Intn(3) == 0 { // an expired idle tail behind it
+			age := pick64(r, 7200, 100000, 30)
+			c.Shards = append(c.Shards, coShard{Ready: true, PushOK: true, PostOK: true, Status: &[]coStat{}, RT1: &coRuntime{HashOK: true, IdleAge: &age}})
+		}
+	case 2: // relief: shard 0 overloaded with several movable targets, few destinations
+		c.Opts.MaxIdle = pick64(r, 0, 3600)
+		cnt := 3 + r.Intn(3)
+		for j := 0; j < cnt; j++ {
+			sr := pick64(r, lim/3, lim/4, lim/2, lim/5)
+			*c.Shards[0].Status = append(*c.Shards[0].Status, mkT(sr, sr+pick64(r, 0, L/4, L/3, L/2), old()))
+		}
+		setLoad(0)
+		if r.Intn(2) == 0 { // reported load at a relief threshold rather than the sum
+			c.Shards[0].RT1.Head = pick64(r, lim*11/10+1, lim*14/10+1, lim*16/10+1, lim*18/10+1, lim*2)
+			c.Shards[0].RT1.Proc = pick64(r, L+1, L*12/10, c.Shards[0].RT1.Proc)
+		}
+		for k := 1; k < n; k++ {
+			if r.Intn(2) == 0 {
+				sr, tt := small()
+				*c.Shards[k].Status = append(*c.Shards[k].Status, mkT(sr, tt, old()))
+			}
+			setLoad(k)
+			if r.Intn(3) == 0 { // little process room left
+				c.Shards[k].RT1.Proc = pick64(r, L-1, L-L/4, L/2)
+			}
+		}
+	case 3: // unready tail behind expired idle shards; the head of the replica is loaded
+		c.Opts.MaxIdle = pick64(r, 3600, 60)
+		sr, tt := small()
+		*c.Shards[0].Status = append(*c.Shards[0].Status, mkT(sr, tt, old()))
+		setLoad(0)
+		for k := 1; k < n; k++ {
+			age := pick64(r, 7200, 100000, 30)
+			c.Shards[k].RT1.IdleAge = &age
+		}
+		tail := 1 + r.Intn(2)
+		for k := 0; k < tail; k++ {
+			sh := coShard{Ready: false, PushOK: true, PostOK: true, Status: &[]coStat{}, RT1: &coRuntime{HashOK: true}}
+			if r.Intn(3) == 0 { // ready but out of sync instead
+				sh.Ready = true
+				sh.RT1 = &coRuntime{HashOK: false}
+				sh.PushOK = false
+			}
+			c.Shards = append(c.Shards, sh)
+		}
+	case 4: // new targets to assign next to shards that are not in sync but hold copies
+		for k := 0; k < n; k++ {
+			if r.Intn(2) == 0 {
+				sr, tt := small()
+				*c.Shards[k].Status = append(*c.Shards[k].Status, mkT(sr, tt, old()))
+			}
+			setLoad(k)
+		}
+		for j := 0; j < 1+r.Intn(3); j++ {
+			sr, tt := small()
+			mkT(sr, tt, 0)
+		}
+	}
+	// one shard that is not in sync, at a random position (often a low one)
+	if r.Intn(2) == 0 {
+		k := r.Intn(len(c.Shards))
+		if r.Intn(2) == 0 {
+			k = 0
+		}
+		rt := c.Shards[k].RT1
+		switch r.Intn(4) {
+		case 0:
+			c.Shards[k].Ready = false
+		case 1:
+			c.Shards[k].RT1 = nil
+		case 2: // push rejected
+			r1 := *rt
+			r1.HashOK = false
+			c.Shards[k].RT1 = &r1
+			c.Shards[k].PushOK = false
+		case 3: // accepted, still different
+			r1 := *rt
+			r1.HashOK = false
+			c.Shards[k].RT1 = &r1
+			r2 := r1
+			c.Shards[k].RT2 = &r2
+		}
+	}
+	return c
+}
+
 func coordGen(r *rand.Rand, idx int, thorough bool) interface{} {
+	if r.Intn(5) < 2 {
+		return coordScenario(r, thorough)
+	}
 	c := &coCase{Scale1OK: r.Intn(6) != 0}
 	L := pick64(r, 100, 1000, 15, 5, 40)
 	H := int64(0)
